@@ -148,6 +148,11 @@ func alphaFinish(u *Universe, t *keyTable) {
 
 // NewAlphaUniverse builds a byte-string universe; keyType is "string" or "[]byte".
 func NewAlphaUniverse(sp AlphaSpec, keyType string) *Universe {
+	return NewAlphaUniverseD(sp, keyType, nil, nil)
+}
+
+// NewAlphaUniverseD: driver factories for other value types (nil: int-valued trees).
+func NewAlphaUniverseD(sp AlphaSpec, keyType string, mkS func(*KeySpec[string], map[string]int) Driver, mkB func(*KeySpec[[]byte], map[string]int) Driver) *Universe {
 	u, t := buildAlphaLike(sp, true)
 	u.Kind = "alpha"
 	u.KeyType = keyType
@@ -167,6 +172,10 @@ func NewAlphaUniverse(sp AlphaSpec, keyType string) *Universe {
 		spec := &KeySpec[string]{Keys: keys, Ident: func(s string) string { return s }, Str: func(s string) string { return fmt.Sprintf("%q", s) }}
 		index, _ := BuildIndex(spec)
 		u.New = func() Driver { return NewDriver[string](art.NewAlphaSortedTree[string, int](), spec, index) }
+		if mkS != nil {
+			spec.Fresh = func(s string) string { return strings.Clone(s) } // heap object referenced by nobody else
+			u.New = func() Driver { return mkS(spec, index) }
+		}
 	case "[]byte":
 		bk := make([][]byte, len(keys))
 		for i, s := range keys {
@@ -177,6 +186,9 @@ func NewAlphaUniverse(sp AlphaSpec, keyType string) *Universe {
 			Str:   func(b []byte) string { return fmt.Sprintf("%q", b) }}
 		index, _ := BuildIndex(spec)
 		u.New = func() Driver { return NewDriver[[]byte](art.NewAlphaSortedTree[[]byte, int](), spec, index) }
+		if mkB != nil {
+			u.New = func() Driver { return mkB(spec, index) }
+		}
 	default:
 		panic("bad key type " + keyType)
 	}
